@@ -14,7 +14,9 @@ mod staking;
 fn main() {
     let args: Vec<String> = std::env::args().collect();
     let a = |i: usize| args.get(i).map(|s| s.as_str()).unwrap_or("");
-    std::panic::set_hook(Box::new(|_| {}));
+    if std::env::var("MTV_PANIC").is_err() {
+        std::panic::set_hook(Box::new(|_| {}));
+    }
     match (a(1), a(2)) {
         ("replay", "overlay") => overlay::replay(a(3)),
         ("replay", "prefixed") => prefixed::replay(a(3)),
@@ -26,6 +28,7 @@ fn main() {
         ("replay", "bank") => bank::replay(a(3)),
         ("drive", "bank") => bank::drive(a(3).parse().unwrap_or(10), a(4).parse().unwrap_or(50), a(5)),
         ("drive", "bech") => bech::drive(a(3).parse().unwrap_or(5), a(4).parse().unwrap_or(1), a(5)),
+        ("drive", "chain") => chain::drive(a(3).parse().unwrap_or(5), a(4).parse().unwrap_or(10), a(5)),
         ("drive", "overlay") => overlay::drive(
             a(3).parse().unwrap_or(10),
             a(4).parse().unwrap_or(50),
